@@ -166,13 +166,17 @@ func runExhaustive(c *vp.Child) {
 				if k == 1 && !strings.Contains(s, ")") {
 					continue // already covered by the first alphabet up to renaming
 				}
+				if !subjectSelected(c, len(toks), len(s), idx+si) {
+					continue
+				}
 				sm.reset(mp, s)
 				for init := 0; init <= len(s); init++ {
 					nPairs++
 					for variant := 0; variant < 2; variant++ {
 						fromStart := variant == 0
-						// Match ignores the anchor: only interesting when there is one, or once per subject
-						if !fromStart && !(mp.Anchored || init == 0) {
+						// Match ignores the anchor: only interesting when there is one; otherwise it is
+						// the same code path as MatchFromStart and a few subjects are enough
+						if !fromStart && !(mp.Anchored || (init == 0 && si%9 == 0)) {
 							continue
 						}
 						got, _, pan := goFind(gp, s, init, fromStart, 0)
@@ -224,6 +228,30 @@ func runExhaustive(c *vp.Child) {
 	c.Feature("pairs-also-through-lua", nLua)
 }
 
+// subjectSelected says whether a subject of length sl is run against a pattern
+// of nt tokens.  Everything up to the tier's bounds is run, except for the
+// largest patterns against the longest subjects, of which every third is
+// taken (rotating with the pattern, the subject and the seed).
+//
+//	quick:    patterns <= 4 tokens x subjects <= 3: all; length 4: all for <= 3 tokens, 1/3 for 4 tokens
+//	thorough: patterns <= 5 tokens x subjects <= 3: all; length 4: all for <= 4 tokens, 1/3 for 5 tokens;
+//	          length 5: all for <= 3 tokens, 1/3 for 4 tokens, none for 5 tokens
+func subjectSelected(c *vp.Child, nt, sl, rot int) bool {
+	third := (rot+int(c.Seed))%3 == 0
+	if sl <= 3 {
+		return true
+	}
+	if c.Tier != vp.Thorough {
+		return nt <= 3 || third
+	}
+	switch sl {
+	case 4:
+		return nt <= 4 || third
+	default:
+		return nt <= 3 || (nt == 4 && third)
+	}
+}
+
 func malformedClass(msg string) string {
 	for _, k := range []string{"ends with '%'", "missing ']'", "invalid pattern capture", "unfinished capture", "invalid capture index", "missing arguments to '%b'", "missing '[' after '%f'", "too many captures"} {
 		if strings.Contains(msg, k) {
@@ -247,8 +275,8 @@ func runIter(c *vp.Child) {
 	d := newDrv(c)
 	defer d.close()
 	maxTok := iterTokens(c.Tier)
-	subjA := subjects("ab(", 4)
-	subjB := subjects("a()", 4)
+	subjA := subjects("ab(", c.Pick(3, 4))
+	subjB := subjects("a()", c.Pick(3, 4))
 	var nPat, nCalls int64
 	enumPatterns(maxTok, func(idx int, toks []int) {
 		if !c.Mine(idx) {
